@@ -197,8 +197,8 @@ func TestVerifC20(t *testing.T) {
 		return o
 	}
 	for k := 0; k < 256; k++ {
-		inputs = append(inputs, b32(new(big.Int).Lsh(one, uint(k))))                                  // single bit
-		inputs = append(inputs, b32(new(big.Int).Sub(new(big.Int).Lsh(one, uint(k+1)), one)))          // 2^k-1
+		inputs = append(inputs, b32(new(big.Int).Lsh(one, uint(k))))                                               // single bit
+		inputs = append(inputs, b32(new(big.Int).Sub(new(big.Int).Lsh(one, uint(k+1)), one)))                      // 2^k-1
 		inputs = append(inputs, b32(new(big.Int).Sub(new(big.Int).Lsh(one, 256), new(big.Int).Lsh(one, uint(k))))) // 2^256-2^k
 	}
 	for _, pat := range []byte{0x00, 0xff, 0xaa, 0x55, 0x33, 0xcc, 0x0f, 0xf0, 0x77, 0xee, 0x01, 0x80, 0x7f, 0xfe} {
